@@ -24,6 +24,10 @@ type Gen struct{ g *gen }
 
 func NewGen(r RNG) *Gen { return &Gen{g: &gen{r: r, funcs: map[string]int{}}} }
 
+// WithDice makes the generator emit dice terms: 1 = one-sided dice only (random mode),
+// 2 = any XdY with keep/drop/min/max modifiers (for min/max mode).
+func (g *Gen) WithDice(level int) *Gen { g.g.dice = level; return g }
+
 // Expr generates one expression of depth d.
 func (g *Gen) Expr(d int) []*Node { return []*Node{g.g.any(d)} }
 
